@@ -9,6 +9,10 @@ import itertools
 from ..core import Sub, fail, close, isnum
 from .. import formula as F
 
+# delivery-channel differential (core.Env): of every 6 evaluations that bind variables, one is repeated with the
+# values handed in by the cell/range listeners and one with the values returned by custom functions; outcomes must agree
+CHANNELS = 6
+
 BOUNDS = {
     'quick': 'all trees with <= 3 binary operators over + - * / (all shapes x operator assignments), unary minus on '
              '<= 2 nodes (3 operators, 4 leaf-kind rotations) or <= 1 node (<= 2 operators, all 6^k leaf-kind '
